@@ -171,6 +171,57 @@ pub fn t_field_orders(rec: &mut Rec) {
     }
 }
 
+
+/// Fields that cannot host the code at all (two-adicity below rho_inv: the Jubjub scalar field and the BLS12-381 base
+/// field have two-adicity 1, so no FFT domain holds even the shortest Reed-Solomon codeword): `setup` must report an
+/// error for EVERY requested degree (0, 1, 2, 3, 100), `trim` must refuse parameters built by the public constructor,
+/// for both Ligero flavours and rates 1/2 and 1/4.  (The last clause of the property: unusable parameter combinations
+/// are reported as errors - here "unusable" comes from the field, not from lambda and n.)
+pub fn unusable_fields(rec: &mut Rec) {
+    use ark_poly_commit::linear_codes::{LigeroPCParams, LinearCodePCS};
+    use ark_poly_commit::PolynomialCommitment;
+    type Fq = ark_bls12_381::Fq;
+    type LigJ = LinearCodePCS<LigEnc<FrJ>, FrJ, UP<FrJ>, MT, ColH<FrJ>>;
+    type MllJ = LinearCodePCS<MllEnc<FrJ>, FrJ, MLE<FrJ>, MT, ColH<FrJ>>;
+    type LigQ = LinearCodePCS<LigEnc<Fq>, Fq, UP<Fq>, MT, ColH<Fq>>;
+    let id = "params/unusable-fields".to_string();
+    if !rec.take(&id) {
+        return;
+    }
+    rec.dim("field", "two-adicity-1");
+    let mut report = |rec: &mut Rec, what: String, served: bool| {
+        rec.count_points(1);
+        rec.op(1);
+        rec.class(if served { "unusable-served" } else { "unusable-refused" });
+        if served {
+            viol(rec, "params/unusable-field-served", &id, what);
+        }
+    };
+    for d in [0usize, 1, 2, 3, 100] {
+        let mut rng = seed_rng(rec.seed, 10);
+        let r = catch(|| LigJ::setup(d, None, &mut rng).is_ok());
+        report(rec, format!("univariate Ligero over the Jubjub scalar field (two-adicity 1): setup({}) succeeded", d), r == Ok(true));
+        let mut rng = seed_rng(rec.seed, 10);
+        let r = catch(|| LigQ::setup(d, None, &mut rng).is_ok());
+        report(rec, format!("univariate Ligero over the BLS12-381 base field (two-adicity 1): setup({}) succeeded", d), r == Ok(true));
+        let mut rng = seed_rng(rec.seed, 10);
+        let r = catch(|| MllJ::setup(1, Some(d.max(1).min(6)), &mut rng).is_ok());
+        report(rec, format!("multilinear Ligero over the Jubjub scalar field: setup for {} variables succeeded", d.max(1).min(6)), r == Ok(true));
+    }
+    for rho_inv in [2usize, 4] {
+        let r = catch(|| {
+            let pp = LigeroPCParams::<FrJ, MT, ColH<FrJ>>::new(128, rho_inv, true, (), (), ());
+            LigJ::trim(&pp, 4, 0, None).is_ok()
+        });
+        report(rec, format!("univariate Ligero over the Jubjub scalar field, rho_inv = {}: trim of constructor-built parameters succeeded", rho_inv), r == Ok(true));
+        let r = catch(|| {
+            let pp = LigeroPCParams::<Fq, MT, ColH<Fq>>::new(128, rho_inv, true, (), (), ());
+            LigQ::trim(&pp, 4, 0, None).is_ok()
+        });
+        report(rec, format!("univariate Ligero over the BLS12-381 base field, rho_inv = {}: trim of constructor-built parameters succeeded", rho_inv), r == Ok(true));
+    }
+}
+
 /// The code's relative distance from the parameters themselves (mirror structs), not from the
 /// library's `distance()`: Ligero (rho_inv - 1)/rho_inv, Brakedown beta / rho_inv.
 fn ref_distance<S: Sch>(ck: &CK<S>) -> (usize, usize) {
@@ -583,6 +634,7 @@ pub fn run(rec: &mut Rec) {
     grid_t::<FrJ>(rec, "jubjub-Fr", lambdas, 40);
     grid_t::<ark_bls12_377::Fq>(rec, "bls12-377-Fq", lambdas, 40);
     t_field_orders(rec);
+    unusable_fields(rec);
     proofs::<SLig>(rec);
     proofs::<SMll>(rec);
     proofs::<SBrk>(rec);
